@@ -96,7 +96,11 @@ Module Example.
        i_user := fun _ args => match args with
                                | [VAtom a; VAtom b] => VBool (Z.ltb a b)   (* asymmetric on purpose *)
                                | _ => VBool false
-                               end |}.
+                               end;
+       i_size_of_self := 0;
+
+       i_clone := fun v => v; i_clone_from := fun _ v => v; i_into := fun v => v;
+       i_default := fun _ => VUnit |}.
   Definition tup (a b c : Z) : value := VData (Some "T") [("0", VAtom a); ("1", VAtom b); ("2", VAtom c)].
   Definition m : meta := MPath {| mp_lead := false; mp_segs := ["PartialEq"] |}.
   Definition items := match expand_partial_eq all_traits [TPartialEq] d m with Ok l => l | _ => [] end.
